@@ -287,3 +287,55 @@ Definition c06_harness : harness :=
 (* ---- C17: the call count is the model's ---- *)
 Definition c17_agree (e o : obs) : bool :=
   obs_eqb (raw_field e 3) (raw_field o 3) && obs_eqb (eng_part (eng_part e 1) 2) (eng_part (eng_part o 1) 2).
+
+(* ---- C12: the same case at base offset 1 and at another offset: the second observation is the
+   first with every position shifted by the difference; rendered texts are identical ---- *)
+Definition sh_err (d : N) (o : obs) : obs :=
+  match o with
+  | OT t [OL [ON p; k]] => OT t [OL [ON (p + d); k]]
+  | _ => o
+  end.
+Fixpoint sh_triples (d : N) (l : list N) : list N :=
+  match l with i :: p :: a :: t => i :: (p + d) :: a :: sh_triples d t | _ => l end.
+Definition sh_fail (d : N) (o : obs) : obs := match o with OL [ON p; k] => OL [ON (p + d); k] | _ => o end.
+Fixpoint sh_node (d : N) (o : obs) : obs :=
+  match o with
+  | OT t l =>
+    if String.eqb t "r" then match l with [OS [c; p; r]] => OT t [OS [c; p + d; r + d]] | _ => o end
+    else if String.eqb t "E" || String.eqb t "F" then match l with [ON p] => OT t [ON (p + d)] | _ => o end
+    else if String.eqb t "N" then match l with [OS [tc; p; r]; OL cs] => OT t [OS [tc; p + d; r + d]; OL (map (sh_node d) cs)] | _ => o end
+    else if String.eqb t "T" then match l with [tok; v; OS [p; r]] => OT t [tok; v; OS [p + d; r + d]] | _ => o end
+    else o
+  | _ => o
+  end.
+Definition sh_part (d : N) (o : obs) : obs :=
+  match o with
+  | OT t l =>
+    if String.eqb t "Raw" then
+      match l with
+      | [OL ns; e; ce; c; OS b; OL f] => OT t [OL (map (sh_node d) ns); sh_err d e; sh_err d ce; c; OS (sh_triples d b); OL (map (sh_fail d) f)]
+      | _ => o
+      end
+    else if String.eqb t "Top" then
+      match l with
+      | OT k ns :: ce :: c :: rest =>
+        OT t ((if String.eqb k "Node" then OT k (map (sh_node d) ns) else OT k ns) :: sh_err d ce :: c ::
+              map (fun f => match f with OL fl => OL (map (sh_fail d) fl) | _ => f end) rest)
+      | _ => o
+      end
+    else o
+  | _ => o
+  end.
+Definition sh_eng (d : N) (o : obs) : obs := match o with OT t l => OT t (map (sh_part d) l) | _ => o end.
+
+Definition c12_expected (c : eng_case) : obs :=
+  match c with
+  | Eng rules root data offset flags => OT "C12" [eng_expected (Eng rules root data 1 flags); eng_expected c]
+  end.
+Definition c12_oracle (c : eng_case) (o : obs) : bool :=
+  match c, o with
+  | Eng _ _ _ offset _, OT _ [o1; o2] => obs_eqb (sh_eng (offset - 1) o1) o2
+  | _, _ => false
+  end.
+Definition c12_harness : harness :=
+  {| H_case := eng_case; H_expected := c12_expected; H_agree := obs_eqb; H_oracle := c12_oracle |}.
